@@ -21,7 +21,37 @@ pub fn pick_det_kind(rng: &mut Prng) -> Kind {
 }
 
 pub fn gen_seed_bytes(rng: &mut Prng, n: usize) -> Vec<u8> {
-    match rng.below(10) {
+    match rng.below(13) {
+        10 => {
+            // two words that are additive inverses (the `+` scramblers then output 0), at 32- or 64-bit width
+            let mut v = rng.bytes(n);
+            let w = if n >= 16 && rng.chance(1, 2) { 8 } else { 4 };
+            let words = n / w;
+            if words >= 2 {
+                let i = rng.below(words as u64) as usize;
+                let j = (i + 1 + rng.below(words as u64 - 1) as usize) % words;
+                if w == 8 {
+                    let x = u64::from_le_bytes([v[i * 8], v[i * 8 + 1], v[i * 8 + 2], v[i * 8 + 3], v[i * 8 + 4], v[i * 8 + 5], v[i * 8 + 6], v[i * 8 + 7]]);
+                    v[j * 8..j * 8 + 8].copy_from_slice(&0u64.wrapping_sub(x).to_le_bytes());
+                } else {
+                    let x = u32::from_le_bytes([v[i * 4], v[i * 4 + 1], v[i * 4 + 2], v[i * 4 + 3]]);
+                    v[j * 4..j * 4 + 4].copy_from_slice(&0u32.wrapping_sub(x).to_le_bytes());
+                }
+            }
+            v
+        }
+        11 => {
+            // all words equal
+            let x = rng.u64().to_le_bytes();
+            (0..n).map(|i| x[i % 8]).collect()
+        }
+        12 => {
+            // one word all ones, the rest random or zero
+            let mut v = if rng.chance(1, 2) { rng.bytes(n) } else { vec![0u8; n] };
+            let w = rng.below((n / 4) as u64) as usize;
+            v[w * 4..w * 4 + 4].copy_from_slice(&[0xff; 4]);
+            v
+        }
         0 => vec![0u8; n],
         1 => vec![0xffu8; n],
         2 => {
